@@ -1,0 +1,26 @@
+//go:build !verif
+
+package client
+
+import (
+	"time"
+
+	"github.com/pingcap/kvproto/pkg/tikvpb"
+	"google.golang.org/grpc"
+)
+
+// Hooks of the deterministic simulation harness (build tag "verif"). In a
+// normal build every accessor returns a constant nil, so the guarded branches
+// at the three call sites are removed by the compiler.
+
+func verifDialHook() func(target string, opts ...grpc.DialOption) (*grpc.ClientConn, error) {
+	return nil
+}
+
+func verifWaitConnReadyHook() func(conn *grpc.ClientConn, timeout time.Duration) error {
+	return nil
+}
+
+func verifNewBatchStreamHook() func(conn *grpc.ClientConn, forwardedHost, connIdx string) (tikvpb.Tikv_BatchCommandsClient, error) {
+	return nil
+}
